@@ -84,7 +84,22 @@ func configChild() {
 		// the document is YAML whatever the file is called
 		name := confFileName(i)
 		path := filepath.Join(dir, name)
-		os.WriteFile(path, []byte(docs[i]), 0o644)
+		if i%11 == 5 {
+			// ... or whatever kind of file it is: here a named pipe (coredhcp -c <(render-config)), whose
+			// size reads as 0 while it delivers the whole document
+			if syscall.Mkfifo(path, 0o600) == nil {
+				go func(doc string) {
+					if f, err := os.OpenFile(path, os.O_WRONLY, 0); err == nil {
+						f.WriteString(doc)
+						f.Close()
+					}
+				}(docs[i])
+			} else {
+				os.WriteFile(path, []byte(docs[i]), 0o644)
+			}
+		} else {
+			os.WriteFile(path, []byte(docs[i]), 0o644)
+		}
 		c, err := config.Load(path)
 		os.Remove(path)
 		r := confRes{I: i}
